@@ -368,6 +368,9 @@ func emissionsOf(p *Prog, fn *ssa.Function) (buf *ssa.Parameter, off *ssa.Parame
 	if fn.Signature.Recv() != nil {
 		base = 1
 	}
+	if k := fillBufIndex(fn); k > 0 {
+		base += k
+	}
 	if np < base+2 {
 		return
 	}
@@ -388,6 +391,9 @@ func emissionsOf(p *Prog, fn *ssa.Function) (buf *ssa.Parameter, off *ssa.Parame
 				bi = 0
 			} else if callees[0].Signature.Recv() != nil && call.Call.StaticCallee() != nil {
 				bi = 1
+			}
+			if k := fillBufIndex(callees[0]); k > 0 {
+				bi += k
 			}
 			if bi+1 >= len(args) {
 				continue
@@ -941,7 +947,18 @@ func bytePerIteration(p *Prog, pr *Prover, fn *ssa.Function, buf, off *ssa.Param
 		return false, "the offset increment is not on every cycle"
 	}
 	rv, ok := ret.Results[0].(*ssa.BinOp)
-	if !ok || rv.Op != token.SUB || rv.Y != ssa.Value(off) || rv.X != ssa.Value(step) {
+	// the offset after the last byte: the incremented value, or — when the loop is left from the block of the
+	// running offset's phi — the phi itself (it then holds the increment of the last completed cycle)
+	afterLast := ok && rv.X == ssa.Value(step)
+	if ok && rv.X == ssa.Value(phi) {
+		afterLast = true
+		for _, e := range l.ExitEdges() {
+			if e.from != phi.Block() {
+				afterLast = false
+			}
+		}
+	}
+	if !ok || rv.Op != token.SUB || rv.Y != ssa.Value(off) || !afterLast {
 		return false, "the primitive does not return (running offset after the last byte) - (entry offset): " + describeVal(ret.Results[0])
 	}
 	return true, "one byte is stored at the running offset on every cycle, the offset advances by one, and the number of cycles is returned"
@@ -1262,6 +1279,11 @@ func lengthPrefixFindings(p *Prog, topLevel map[*ssa.Function]bool) []guardFindi
 					if sc := x.Call.StaticCallee(); sc != nil && sc.Signature.Recv() != nil {
 						if _, isClosure := x.Call.Value.(*ssa.MakeClosure); !isClosure {
 							bi = 1
+						}
+					}
+					if sc := x.Call.StaticCallee(); sc != nil {
+						if k := fillBufIndex(sc); k > 0 {
+							bi += k
 						}
 					}
 					if bi+1 >= len(args) || !p.isNilSliceLoad(args[bi]) {
